@@ -156,13 +156,13 @@ size_t __ncreated;
 #define __FC_Importer_ImporterImpl_fetchModel FETCH_SOURCE_CONTRACT
 #define __FC_Importer_ImporterImpl_fetchImportSource FETCH_SOURCE_CONTRACT
 #define __LC_Importer_ImporterImpl_fetchModel_0                                                \
-    __CPROVER_assigns(index, COUNTS(self), g_tail, __ncreated, __CPROVER_object_whole(g_listed)) \
-    __CPROVER_loop_invariant(index <= errorCount && errorCount == a_nE[PARSER_] && errorCount < HALFCAP && parser == PARSER_) \
+    __CPROVER_assigns(LV, COUNTS(self), g_tail, __ncreated, __CPROVER_object_whole(g_listed)) \
+    __CPROVER_loop_invariant(LV <= errorCount && errorCount == a_nE[PARSER_] && errorCount < HALFCAP && parser == PARSER_) \
     __CPROVER_loop_invariant(__ncreated == __CPROVER_loop_entry(__ncreated))                   \
-    __CPROVER_loop_invariant(a_nE[self] == __CPROVER_loop_entry(a_nE[self]) + index && a_nI[self] == __CPROVER_loop_entry(a_nI[self]) + index) \
+    __CPROVER_loop_invariant(a_nE[self] == __CPROVER_loop_entry(a_nE[self]) + LV && a_nI[self] == __CPROVER_loop_entry(a_nI[self]) + LV) \
     __CPROVER_loop_invariant(a_nW[self] == __CPROVER_loop_entry(a_nW[self]) && a_nM[self] == __CPROVER_loop_entry(a_nM[self])) \
-    __CPROVER_loop_invariant(g_tail >= index && g_tail <= a_nE[self] && a_nE[self] <= a_nI[self] && a_nI[self] < HALFCAP && a_nE[self] + a_nW[self] + a_nM[self] == a_nI[self] && a_nW[self] <= a_nI[self] && a_nM[self] <= a_nI[self]) \
-    __CPROVER_decreases(errorCount - index)
+    __CPROVER_loop_invariant(g_tail >= LV && g_tail <= a_nE[self] && a_nE[self] <= a_nI[self] && a_nI[self] < HALFCAP && a_nE[self] + a_nW[self] + a_nM[self] == a_nI[self] && a_nW[self] <= a_nI[self] && a_nM[self] <= a_nI[self]) \
+    __CPROVER_decreases(errorCount - LV)
 
 /* fetchComponent / fetchUnits: every removeError call deletes the last issue; false is explained */
 #define FETCH_ENTITY_CONTRACT(entity)                                                          \
@@ -177,20 +177,20 @@ size_t __ncreated;
 
 /* the loops that delete the errors forwarded by fetchModel: the error deleted in each iteration is the last issue */
 #define REMOVAL_LOOP                                                                           \
-    __CPROVER_assigns(index, a_nI[self], a_nE[self], g_tail, encounteredRelatedError)          \
-    __CPROVER_loop_invariant(startIndex <= index && index <= endIndex && a_nE[self] == index)  \
-    __CPROVER_loop_invariant(a_nI[self] + (endIndex - index) == __CPROVER_loop_entry(a_nI[self])) \
-    __CPROVER_loop_invariant(g_tail >= index - startIndex && g_tail <= a_nE[self] && a_nE[self] <= a_nI[self] && a_nI[self] < HALFCAP) \
+    __CPROVER_assigns(LV, a_nI[self], a_nE[self], g_tail, encounteredRelatedError)          \
+    __CPROVER_loop_invariant(startIndex <= LV && LV <= endIndex && a_nE[self] == LV)  \
+    __CPROVER_loop_invariant(a_nI[self] + (endIndex - LV) == __CPROVER_loop_entry(a_nI[self])) \
+    __CPROVER_loop_invariant(g_tail >= LV - startIndex && g_tail <= a_nE[self] && a_nE[self] <= a_nI[self] && a_nI[self] < HALFCAP) \
     __CPROVER_loop_invariant(a_nE[self] + a_nW[self] + a_nM[self] == a_nI[self] && a_nW[self] <= a_nI[self] && a_nM[self] <= a_nI[self]) \
-    __CPROVER_decreases(index)
+    __CPROVER_decreases(LV)
 #define __LC_Importer_ImporterImpl_fetchUnits_0 REMOVAL_LOOP
 #define __LC_Importer_ImporterImpl_fetchComponent_1 REMOVAL_LOOP
 /* the loops over children / referenced units: each iteration is a call under its own contract */
 #define DESCEND_LOOP(i)                                                                        \
     __CPROVER_assigns(i, FETCH_FRAME(self), history->n)                                        \
     __CPROVER_loop_invariant(INV(self) && history->n == __CPROVER_loop_entry(history->n))
-#define __LC_Importer_ImporterImpl_fetchUnits_1 DESCEND_LOOP(unit_index)
-#define __LC_Importer_ImporterImpl_fetchComponent_0 DESCEND_LOOP(c)
-#define __LC_Importer_ImporterImpl_fetchComponent_2 DESCEND_LOOP(c)
+#define __LC_Importer_ImporterImpl_fetchUnits_1 DESCEND_LOOP(LV)
+#define __LC_Importer_ImporterImpl_fetchComponent_0 DESCEND_LOOP(LV)
+#define __LC_Importer_ImporterImpl_fetchComponent_2 DESCEND_LOOP(LV)
 #define __LC_Importer_ImporterImpl_fetchComponent_3 DESCEND_LOOP(__i2) __CPROVER_loop_invariant(__i2 <= __range1->n)
 #endif
